@@ -38,6 +38,14 @@ theorem pick_mem (m : AL Nat) (c k v : Nat) (h : pick m c = some (k, v)) : AL.ge
   rw [Ne, AL.get_eq_none_iff]; intro hn
   exact hn (List.mem_map_of_mem (f := (·.1)) hm)
 
+theorem deleteAll_m (sh : Nat → Nat → Bool) (s : St) (ks : List Nat) :
+    (deleteAll sh s ks).m = ks.foldl AL.del s.m := by
+  induction ks generalizing s with
+  | nil => rfl
+  | cons k ks ih =>
+    simp only [deleteAll, List.foldl_cons] at ih ⊢
+    rw [ih, delete_m]
+
 /-- One step: same output as the plain map, and the map component follows the plain map. -/
 theorem step_refines (sh : Nat → Nat → Bool) (s : St) (op : Op) :
     (step sh s op).2 = (specStep s.m op).2 ∧ (step sh s op).1.m = (specStep s.m op).1 := by
@@ -72,6 +80,8 @@ theorem step_refines (sh : Nat → Nat → Bool) (s : St) (op : Op) :
   | asMap => exact ⟨rfl, rfl⟩
   | clear => exact ⟨rfl, rfl⟩
   | shrink => exact ⟨rfl, rfl⟩
+  | forEachN n => exact ⟨rfl, rfl⟩
+  | forEachDel ko => exact ⟨rfl, deleteAll_m sh s _⟩
 
 theorem run_refines (sh : Nat → Nat → Bool) (s : St) (ops : List Op) :
     (run sh s ops).2 = (specRun s.m ops).2 ∧ (run sh s ops).1.m = (specRun s.m ops).1 := by
@@ -96,6 +106,12 @@ theorem spec_nodup {m : AL Nat} (h : AL.NoDupKeys m) (op : Op) : AL.NoDupKeys (s
     | none => exact h
     | some p => exact AL.nodup_del h _
   | clear => simp [specStep, AL.NoDupKeys, AL.keys]
+  | forEachDel ko =>
+    simp only [specStep]
+    generalize AL.keys m = ks
+    induction ks generalizing m with
+    | nil => exact h
+    | cons k ks ih => exact ih (AL.nodup_del h k)
   | _ => simp [specStep, h, AL.nodup_set, AL.nodup_del]
 
 /-! ## what the counter and the ghost allocation do -/
@@ -134,8 +150,14 @@ theorem inv_delete {s : St} (h : Inv s) (sh : Nat → Nat → Bool) (k : Nat) : 
     · exact h1
   · simpa [hk] using h
 
+theorem inv_deleteAll {s : St} (h : Inv s) (sh : Nat → Nat → Bool) (ks : List Nat) : Inv (deleteAll sh s ks) := by
+  induction ks generalizing s with
+  | nil => exact h
+  | cons k ks ih => exact ih (inv_delete h sh k)
+
 theorem inv_step {s : St} (h : Inv s) (sh : Nat → Nat → Bool) (op : Op) : Inv (step sh s op).1 := by
   cases op with
+  | forEachDel ko => exact inv_deleteAll h sh _
   | set k v => exact inv_store h k v
   | goc k v => simp only [step]; cases AL.get s.m k <;> simp [h, inv_store]
   | compute k d => exact inv_store h k _
@@ -180,6 +202,27 @@ theorem deleted_lt_step {sh : Nat → Nat → Bool} {c : Nat} (hc : 0 < c)
         · exact absurd (hsh _ _ (by omega)) hs
     · simpa [hk] using h
   cases op with
+  | forEachDel ko =>
+    simp only [step]
+    generalize AL.keys s.m = ks
+    -- every single delete keeps the counter below `c`, from any state
+    have hdel' : ∀ (t : St), t.deleted < c → ∀ k, (delete sh t k).1.deleted < c := by
+      intro t ht k
+      unfold delete
+      by_cases hk : AL.has t.m k = true
+      · simp only [hk, if_true]
+        by_cases hs : sh (t.deleted + 1) (AL.del t.m k).length = true
+        · simp [hs, rebuild, hc]
+        · simp only [hs, Bool.false_eq_true, if_false]
+          by_cases hlt : t.deleted + 1 < c
+          · exact hlt
+          · exact absurd (hsh _ _ (by omega)) hs
+      · simpa [hk] using ht
+    induction ks generalizing s with
+    | nil => exact h
+    | cons k ks ih =>
+      simp only [deleteAll, List.foldl_cons]
+      exact ih (hdel' s h k) (fun k' => hdel' _ (hdel' s h k) k')
   | goc k v => simp only [step]; cases AL.get s.m k <;> simp [h, store]
   | del k => exact hdel k
   | delif k b => cases b <;> simp [step, h, hdel]
